@@ -107,6 +107,61 @@ def h_stale_index(m: int, cut: int, use_cut: bool, leftovers: bool, template: st
     reached()
 
 
+def h_stale_index_pack(m: int, cut: int, use_cut: bool, gc: bool) -> None:
+    """The index was saved at any moment BEFORE a pack (or after it); the data file is the packed one."""
+    with untraced():
+        from zverif import graph as GR
+        from ZODB.serialize import referencesf
+        env = T.Env()
+        g = GR.G(env)
+        snaps = []
+        orig_commit = g.commit
+
+        def commit(note=None):
+            orig_commit(note)
+            g.s._save_index()
+            snaps.append(bytes(env.fs.content(INDEX)))
+        g.commit = commit
+        g.build('G1')
+        g.close()
+        s = g.s
+        pre = GR.model_from_storage(s)
+        s.pack(env.clock.now - 3.5, referencesf, gc=gc)
+        snaps.append(bytes(env.fs.content(INDEX)))          # the index the pack itself saved
+        packed = GR.model_from_storage(s)
+        s.close()
+        data = bytes(env.fs.content(DATA))
+    k = choose(m, len(snaps))
+    with untraced():
+        env2 = T.Env()
+        env2.fs.put(DATA, data)
+        idx = snaps[k]
+    if use_cut:
+        assume(0 <= cut < len(idx))
+        env2.fs.put(INDEX, idx, symsize=cut)
+    else:
+        assume(cut == 0)
+        env2.fs.put(INDEX, idx)
+    note('moment', k)
+    try:
+        s2 = env2.filestorage()
+    except Exception as ex:
+        fail('open of a packed file with a pre-pack index raised', type(ex).__name__, str(ex)[:200], k)
+    with untraced():
+        note('used_index', s2._used_index)
+        got = GR.model_from_storage(s2)
+        check([B.mtxn_view(t) for t in got.txns] == [B.mtxn_view(t) for t in packed.txns],
+              'iteration after opening with a pre-pack index differs from the packed file')
+        for o in packed.oids():
+            B.q_load(s2, packed, o)
+            for t in packed.txns:
+                B.q_load_before(s2, packed, o, t.tid)
+        no = s2.new_oid()
+        check(all(no > o for o in packed.oids()), 'new_oid after reopen collides with a stored oid', no)
+        s2.close()
+    reached()
+
+
 def _dir_image(env):
     files, dirs = env.fs.snapshot('/db')
     return files, dirs
@@ -247,6 +302,14 @@ HARNESSES = [
                        + shards(template=['T2', 'T4'], use_cut=[False], leftovers=[True])),
             thorough=dict(timeout=900, shards=shards(template=['T1', 'T2', 'T3', 'T4', 'T5', 'T6', 'T10'], use_cut=[True, False],
                                                      leftovers=[True, False]))),
+    Harness('stale_index_pack', h_stale_index_pack,
+            decides='a packed data file opened with an index saved at any moment before the pack (or the pack\'s own), cut to any '
+                    'length, yields exactly the state of the packed file',
+            symbolic='m (selector over the 9 pre-pack save moments + the post-pack index), cut (symbolic index length)',
+            bounds='history G1, one pack (gc on/off)', oracle='model derived from the packed file',
+            code=['FileStorage._restore_index', '_check_sanity', 'read_index(start=...)'],
+            quick=dict(timeout=150, shards=shards(use_cut=[False, True], gc=[True])),
+            thorough=dict(timeout=600, shards=shards(use_cut=[False, True], gc=[True, False]))),
     Harness('read_only', h_read_only,
             decides='read-only open, reads and attempted writes modify no file (empty operation log, identical directory) and '
                     'every writer raises ReadOnlyError, also with an unfinished transaction of any torn length at the end',
